@@ -216,7 +216,8 @@ func specNamesSmall(l []string) bool {
 //@ loop 2 invariant[tab] using(tabptr, tab, convertNameToBytes.tab) specStrTabOK(stringTable.Bytes(), stringTableOffsetMap)
 //@ loop 2 invariant[flds] using(len, flds) forall(0, len(ctx.GlobalSymbolList)+iter, func(j int) bool { return specUserFields(allEntries[4+j]) })
 //@ loop 2 invariant[syms] using(len, tabptr, syms, convertNameToBytes.mono) forall(0, len(ctx.GlobalSymbolList), func(j int) bool { return specUserSymM(allEntries[4+j], stringTableOffsetMap, ctx.GlobalSymbolList[j], specHas32(ctx.SymTable, ctx.GlobalSymbolList[j]), ctx.SymTable[ctx.GlobalSymbolList[j]]) })
-//@ loop 2 invariant[exts] using(len, tabptr, exts, convertNameToBytes.nameM, convertNameToBytes.mono) forall(len(ctx.GlobalSymbolList), len(ctx.GlobalSymbolList)+iter, func(j int) bool { return specUserSymM(allEntries[4+j], stringTableOffsetMap, ctx.ExternSymbolList[j-len(ctx.GlobalSymbolList)], false, 0) })
+//@ loop 2 invariant[exts] using(len, tabptr, exts, convertNameToBytes.nameM, convertNameToBytes.mono) forall(0, iter, func(k int) bool { return specNameIsM(allEntries[4+len(ctx.GlobalSymbolList)+k].Main.Name, stringTableOffsetMap, ctx.ExternSymbolList[k]) })
+//@ loop 2 invariant[extv] using(len, extv) forall(len(ctx.GlobalSymbolList), len(ctx.GlobalSymbolList)+iter, func(j int) bool { return allEntries[4+j].Main.SectionNumber == 0 && allEntries[4+j].Main.Value == 0 })
 //@ ensures[count@C08] using(len) len(result0) == 4+len(ctx.GlobalSymbolList)+len(ctx.ExternSymbolList)
 //@ ensures[file@C09] using(sec, file, len, prefix, sort) specFileSym(result0[0], ctx.SourceFileName)
 //@ ensures[section1] using(sec, shape, secmain, secaux1, len, prefix, sort) specSectionSym(result0[1], 0, textDataSize)
@@ -227,7 +228,7 @@ func specNamesSmall(l []string) bool {
 //@ ensures[order@C09] using(len, sort) forall(0, len(result0)-4, func(a int) bool { return forall(a+1, len(result0)-4, func(b int) bool { return (result0[4+a].Main.SectionNumber == 0 ==> result0[4+b].Main.SectionNumber == 0) && (result0[4+b].Main.SectionNumber != 0 ==> result0[4+a].Main.Value <= result0[4+b].Main.Value) }) })
 //@ ensures[names.range@C09] using(len, sort) forall(0, len(result0)-4, func(a int) bool { return 0 <= vcSortPerm(a) && vcSortPerm(a) < len(result0)-4 })
 //@ ensures[names.globals@C09] using(len, tabptr, syms, sort) forall(0, len(result0)-4, func(a int) bool { return vcSortPerm(a) < len(ctx.GlobalSymbolList) ==> specUserVals(result0[4+a], ctx.GlobalSymbolList[vcSortPerm(a)], specHas32(ctx.SymTable, ctx.GlobalSymbolList[vcSortPerm(a)]), ctx.SymTable[ctx.GlobalSymbolList[vcSortPerm(a)]]) })
-//@ ensures[names.externs@C09] using(len, tabptr, exts, sort) forall(0, len(result0)-4, func(a int) bool { return vcSortPerm(a) >= len(ctx.GlobalSymbolList) ==> specUserVals(result0[4+a], ctx.ExternSymbolList[vcSortPerm(a)-len(ctx.GlobalSymbolList)], false, 0) })
+//@ ensures[names.externs@C09] using(len, extv, sort) forall(0, len(result0)-4, func(a int) bool { return vcSortPerm(a) >= len(ctx.GlobalSymbolList) ==> result0[4+a].Main.SectionNumber == 0 && result0[4+a].Main.Value == 0 })
 //@ assigns Buffer.buf, map[string]uint32, SymbolEntry[]
 
 // specSectionMain / specSectionAux: the two halves of specSectionSym.
